@@ -4,6 +4,7 @@
    Model comparison and property oracle are evaluated inside Coq. *)
 From Coq Require Export Strings.String.
 From DustDDS Require Export Base.Machine Lang.DeriveModel.
+From DustDDS Require KeyHash.Md5Model.
 Open Scope Z_scope.
 
 Record C40_rt : Type := mkRT {
@@ -132,7 +133,13 @@ Definition C40_model_ok (c : C40_case) : bool :=
 (* The property, stated on the IMPLEMENTATION's output and on the declaration,
    without using [describe] / [to_st] / [from_st]. *)
 
-Definition hash_id28 (name : string) : Z := hash_id name mod 268435456.   (* XTypes 7.3.1.2.1.1: & 0x0FFFFFFF *)
+(* XTypes 7.3.1.2.1.1: the first four MD5 bytes, little endian, & 0x0FFFFFFF (written out here,
+   independently of the model's [hash_id]) *)
+Definition hash_id28 (name : string) : Z :=
+  match KeyHash.Md5Model.md5 (string_bytes name) with
+  | b0 :: b1 :: b2 :: b3 :: _ => (b0 + 256 * (b1 + 256 * (b2 + 256 * b3))) mod 268435456
+  | _ => 0
+  end.
 
 (* expected member ids: @hashid (28 bit), an explicit @id in every extensibility kind,
    otherwise sequential: the automatic counter in Mutable structures, the member index
@@ -157,16 +164,6 @@ Definition kn_explicit_id_ignored (t : ty) : bool :=     (* class 1 *)
       | Mutable => false
       | _ => existsb (fun m => negb (m_hashid (fst m)) && match m_id (fst m) with Some _ => true | None => false end) ms
       end
-  | _ => false
-  end.
-Definition kn_hash_unmasked (t : ty) : bool :=            (* class 2 *)
-  match t with
-  | TStruct h ms =>
-      (fix go (idx : nat) (ms : list (mhead * ty)) : bool :=
-         match ms with
-         | [] => false
-         | (m, _) :: r => (m_hashid m && (268435456 <=? hash_id (member_name h idx m))) || go (S idx) r
-         end) O ms
   | _ => false
   end.
 Definition kn_enum (t : ty) : bool :=                     (* class 4 *)
@@ -211,7 +208,7 @@ Fixpoint labels_ok (ls : list (list Z)) (hs : list vhead) : bool :=
   | _, _ => false
   end.
 
-(* class 7: `Vec<i8>` is published as a sequence of UINT8 (type_support.rs:382) *)
+(* the expected signature of a member type *)
 Fixpoint spec_sig (t : ty) : tsig :=
   match t with
   | TPrim p => Sig (kind_of_prim p) ""%string [] None
@@ -223,13 +220,6 @@ Fixpoint spec_sig (t : ty) : tsig :=
   | TEnum e => Sig K_ENUM (tname (e_rname e) (e_cname e)) [] None
   | TUnion h _ => Sig K_UNION (tname (u_rname h) (u_cname h)) [] None
   end.
-Fixpoint has_vec_i8 (t : ty) : bool :=
-  match t with
-  | TVec (TPrim PI8) => true
-  | TVec e | TArr e _ | TOpt e => has_vec_i8 e
-  | _ => false
-  end.
-
 (* the entries of xs that belong to members which are not non_serialized *)
 Fixpoint published {A} (hs : list mhead) (xs : list A) : list A :=
   match hs, xs with
@@ -260,9 +250,9 @@ Definition C40_checks (c : C40_case) : list (bool * N) :=
         (list_eqb Bool.eqb (map md_must_understand ms) (pub _ (map m_key hs)), k6 0%N);
         (list_eqb tck_eqb (map md_tc ms) (pub _ (map (fun m => tc_of (m_tc m)) hs)), k6 0%N);
         (list_eqb tsig_eqb (map md_type ms) (pub _ (map (fun m => spec_sig (snd m)) dm)),  (* member types *)
-         k6 (cls (existsb (fun m => has_vec_i8 (snd m)) dm) 7));
+         k6 0%N);
         (list_eqb Z.eqb (map md_id ms) (pub _ (spec_ids_from h 0 0 hs)),                    (* ids *)
-         k6 (if kn_explicit_id_ignored t then 1%N else cls (kn_hash_unmasked t) 2));
+         k6 (cls (kn_explicit_id_ignored t) 1));
         (nodupb (map md_id ms), cls (dup_ids_here t) 3) ]                                   (* ids distinct *)
   | TEnum e =>
       [ ((td_kind d =? K_ENUM) && String.eqb (td_name d) (tname (e_rname e) (e_cname e)) &&
@@ -287,7 +277,7 @@ Definition C40_checks (c : C40_case) : list (bool * N) :=
          end, 0%N);
         (list_eqb tsig_eqb (map md_type (tl ms))
            (map (fun v => match snd v with Some t' => spec_sig t' | None => Sig K_NONE ""%string [] None end) vs),
-         cls (existsb (fun v => match snd v with Some t' => has_vec_i8 t' | None => false end) vs) 7) ]
+         0%N) ]
   | _ => [(false, 0%N)]
   end
   ++
